@@ -8,6 +8,8 @@ import Driver.C16
 import Driver.C18
 import Driver.C08
 import Driver.C09
+import Driver.C10
+import Driver.C05
 
 /-- global driver state: one slot per stateful model -/
 structure St where
@@ -16,12 +18,16 @@ structure St where
   c02 : Driver.C02.State := Driver.C02.init
   c16 : Driver.C16.State := Driver.C16.init
   c18 : Driver.C18.DSt := Driver.C18.init
+  c10 : Driver.C10.State := Driver.C10.init
+  c05 : Driver.C05.State := Driver.C05.init
 
 def stepLine (st : St) (line : String) : St × String :=
   match (line.trimAscii.toString.splitOn " ").filter (· ≠ "") with
   | "C04" :: rest => (st, Driver.C04.step rest)
   | "C19" :: rest => let (s', o) := Driver.C19.step st.c19 rest; ({ st with c19 := s' }, o)
   | "C02" :: rest => let (s', o) := Driver.C02.step st.c02 rest; ({ st with c02 := s' }, o)
+  | "C10" :: rest => let (s', o) := Driver.C10.step st.c10 rest; ({ st with c10 := s' }, o)
+  | "C05" :: rest => let (s', o) := Driver.C05.step st.c05 rest; ({ st with c05 := s' }, o)
   | "C09" :: rest => (st, Driver.C09.step rest)
   | "C08" :: rest => (st, Driver.C08.step rest)
   | "C18" :: rest => let (s', o) := Driver.C18.step st.c18 rest; ({ st with c18 := s' }, o)
